@@ -376,6 +376,8 @@ def run(ctx):
     finally:
         if pending is not None:
             raise pending
+    from .round12 import r05i
+    r05i(ctx)
 
 
 def _rest(ctx):
